@@ -71,7 +71,7 @@ func (r *caseRun) runRestart(w *lifeRow, lr *lifeReport) (map[string]any, string
 	var gateOnce sync.Once
 	release := func() { gateOnce.Do(func() { close(gate) }) }
 	defer release()
-	var gateUsed atomic.Bool
+	var gateUsed, doneHandled atomic.Bool
 	theHub.set(func(p *protocol.Protocol, e protocol.VerifEvent) {
 		if e.Id != rp.pid || e.Role != protocol.ProtocolRoleServer {
 			return
@@ -88,6 +88,9 @@ func (r *caseRun) runRestart(w *lifeRow, lr *lifeReport) (map[string]any, string
 		}
 		first := len(insts) > 0 && insts[0] == p
 		imu.Unlock()
+		if e.Ev == "Handle" && e.MsgType == rp.doneType {
+			doneHandled.Store(true)
+		}
 		if w.Timing == "early" && e.Ev == "Handle" && e.MsgType == rp.doneType && first && gateUsed.CompareAndSwap(false, true) {
 			caught <- struct{}{}
 			<-gate
@@ -208,11 +211,19 @@ func (r *caseRun) runRestart(w *lifeRow, lr *lifeReport) (map[string]any, string
 	}
 
 	// ---- the script
+	// waitCount waits for the n-th Unreg / Reg event.  If it does not come although the Done has got its handler and the
+	// library has come to rest, the code does not go through the life cycle of the model: that is reported, not waited for.
 	waitCount := func(c *atomic.Int32, n int32, what string) string {
-		deadline := time.Now().Add(60 * time.Second)
+		deadline := time.Now().Add(90 * time.Second)
+		t0 := time.Now()
 		for c.Load() < n {
 			if time.Now().After(deadline) {
-				return what + " was not seen within 60s"
+				return what + " was not seen within 90s"
+			}
+			if time.Since(t0) > 3*time.Second && doneHandled.Load() && lifeAtRest(r.base, 300*time.Millisecond) && c.Load() < n {
+				lr.dis("rest:unpredicted:no-"+strings.Fields(what)[len(strings.Fields(what))-2],
+					"the Done has been handled and the library is at rest, but "+what+" has not happened: ServerRestart.tla has no such behaviour (the old instance stops and unregisters, the new one registers)")
+				return ""
 			}
 			time.Sleep(200 * time.Microsecond)
 		}
@@ -308,7 +319,11 @@ func (r *caseRun) runRestart(w *lifeRow, lr *lifeReport) (map[string]any, string
 		lr.dis("rest:unpredicted:"+out, fmt.Sprintf("at rest %v is none of the observations ServerRestart.tla reaches for this case", rest))
 	}
 	if rest["up"] == true && !call2.returned() {
-		lifeStats["restart cases where the server call is blocked while the connection is up"]++
+		// not a breach of C15 (the call returns when the connection ends), but worth a number: the call obtained the new
+		// instance between initProtocol and Start and sits in enqueueMessage on a queue that did not exist yet
+		if g := snapshot()[call2.gid]; g != nil && strings.Contains(g.text, "enqueueMessage") {
+			lifeStats["restart cases where the server call sits in enqueueMessage of a not yet started instance while the connection is up"]++
+		}
 	}
 
 	// ---- Close, and the end
